@@ -18,7 +18,7 @@ from .labelrun import LV, RelabelInterp
 from .resultrun import Tagged
 
 INFO = {
-    "explanation": "(R10.1) _ProcessingPair.crop_data is interpreted on abstract arrays: the crop is computed from both arrays and the SAME slice tuple is applied to prediction and reference, a second call is a no-op; the per-instance crop does the same (delegated R02.5); (R10.2/R10.3) _get_bbox_nd is interpreted symbolically for 1-D/2-D/3-D arrays with per-axis unknowns (first/last occupied index, extent, padding >= 0): slice j is built from axis j, its start is within [0, first occupied index] (a negative start would wrap around) and its stop is at least last occupied index + 1, so no foreground voxel is ever cropped away whatever the offset/padding of the object in the array; the padding handed in by the pair crop is a non-negative constant; (R10.4) geometry-sensitive configuration, delegated: ASSD borders treat out-of-array as background without wrap-around shifts (R07.2) and candidate pairs are always ordered by score, never by label/scan order (R03.2, R03.6). Further delegated: backend choice depends on the dimensionality only and library call configuration (R05.1/R05.2); crop arithmetic cannot wrap (R09.2). (R10.3) _get_paired_crop is run on abstract arrays: the mask handed to the bounding-box helper is exactly (prediction != 0) or (reference != 0), everything when both are empty. Further: R10.4 (pair constructor), crop of a copy of a cropped pair (R10.1), arithmetic crop masks (R10.3); delegated R15.1/R15.8.",
+    "explanation": "R10.5 (round 4): no slice start of the form bound - padding anywhere in the package without a clamp at 0 (with a built-in positive example). (R10.1) _ProcessingPair.crop_data is interpreted on abstract arrays: the crop is computed from both arrays and the SAME slice tuple is applied to prediction and reference, a second call is a no-op; the per-instance crop does the same (delegated R02.5); (R10.2/R10.3) _get_bbox_nd is interpreted symbolically for 1-D/2-D/3-D arrays with per-axis unknowns (first/last occupied index, extent, padding >= 0): slice j is built from axis j, its start is within [0, first occupied index] (a negative start would wrap around) and its stop is at least last occupied index + 1, so no foreground voxel is ever cropped away whatever the offset/padding of the object in the array; the padding handed in by the pair crop is a non-negative constant; (R10.4) geometry-sensitive configuration, delegated: ASSD borders treat out-of-array as background without wrap-around shifts (R07.2) and candidate pairs are always ordered by score, never by label/scan order (R03.2, R03.6). Further delegated: backend choice depends on the dimensionality only and library call configuration (R05.1/R05.2); crop arithmetic cannot wrap (R09.2). (R10.3) _get_paired_crop is run on abstract arrays: the mask handed to the bounding-box helper is exactly (prediction != 0) or (reference != 0), everything when both are empty. Further: R10.4 (pair constructor), crop of a copy of a cropped pair (R10.1), arithmetic crop masks (R10.3); delegated R15.1/R15.8.",
     "trusted_base": ["numpy basic slicing with a tuple of slices; np.any/np.where along an axis", "cc3d / scipy.ndimage are invariant under flips, axis permutations and memory layout (not analysed)"],
     "assumptions": [],
     "not_decided": ["invariance of the connected-component libraries and of the Euclidean feature transform under flips/permutations/layout"],
@@ -582,20 +582,98 @@ class _UM:
         self.name = name
 
 
+_PAD_WORDS = ("pad", "dist", "margin", "border", "halo")
+
+
+def _unclamped_padded_starts(tree: ast.AST) -> list:
+    """slice starts of the form  <bound> - <padding>  that are not clamped at 0: a negative start
+    counts from the END of the axis, so a crop around an object near index 0 comes out empty or as
+    the wrong strip.  `padding` = a name (or subscript of a name) containing pad/dist/margin/..."""
+    parents = {}
+    for p_ in ast.walk(tree):
+        for c_ in ast.iter_child_nodes(p_):
+            parents[id(c_)] = p_
+    out = []
+
+    def pad_like(e):
+        base = e
+        while isinstance(base, ast.Subscript):
+            base = base.value
+        nm = base.id if isinstance(base, ast.Name) else base.attr if isinstance(base, ast.Attribute) else ""
+        return any(w in nm.lower() for w in _PAD_WORDS)
+
+    def resolve(e, scope):
+        if isinstance(e, ast.Name) and scope is not None:
+            defs = [st for st in ast.walk(scope) if isinstance(st, ast.Assign) and len(st.targets) == 1 and isinstance(st.targets[0], ast.Name) and st.targets[0].id == e.id]
+            if len(defs) == 1:
+                return defs[0].value
+        return e
+
+    for n in ast.walk(tree):
+        starts = []
+        if isinstance(n, ast.Call) and isinstance(n.func, ast.Name) and n.func.id == "slice" and len(n.args) >= 2:
+            starts.append(n.args[0])
+        if isinstance(n, ast.Slice) and n.lower is not None:
+            starts.append(n.lower)
+        for s_ in starts:
+            scope = n
+            while id(scope) in parents and not isinstance(scope, (ast.FunctionDef, ast.AsyncFunctionDef, ast.Module)):
+                scope = parents[id(scope)]
+            e = resolve(s_, scope)
+            if isinstance(e, ast.BinOp) and isinstance(e.op, ast.Sub) and pad_like(e.right):
+                out.append((n, e))
+    return out
+
+
+def check_padded_starts(ctx: Ctx):
+    """R10.5 (who-may / shape rule over the whole package): every crop start `bound - padding` is clamped at 0."""
+    prog = ctx.prog
+    # the rule must be alive: a positive example has to match on every run
+    probe = ast.parse("def f(a, px_dist):\n    lo = a.min() - px_dist\n    return a[lo : a.max() + px_dist + 1], slice(max(a.min() - px_dist, 0), 3)\n")
+    if len(_unclamped_padded_starts(probe)) != 1:
+        ctx.undecided("R10.5.floor", None, None, "floor:R10.5", "the built-in positive example is not matched exactly once: rule broken")
+        return
+    n_mod = 0
+    hits = 0
+    for m in prog.modules.values():
+        n_mod += 1
+        for node, e in _unclamped_padded_starts(m.tree):
+            hits += 1
+            f = next((fn for fn in m.functions.values() if fn.node.lineno <= node.lineno <= getattr(fn.node, "end_lineno", fn.node.lineno)), None)
+            if f is None:
+                f = next((fn for fn in prog.functions.values() if fn.module is m and fn.node.lineno <= node.lineno <= getattr(fn.node, "end_lineno", fn.node.lineno)), None)
+            ctx.violated("R10.5", f, node, f"{m.name}:{norm(e)[:60]}", "a crop start computed as bound - padding is clamped at 0 (a negative start counts from the end of the axis: objects near index 0 are cropped away)", {"start": norm(e)})
+    if hits == 0:
+        ctx.ok("R10.5", None, None, "package:padded-slice-starts", f"{n_mod} modules scanned: no unclamped `bound - padding` slice start", None, nontrivial=False)
+
+
+def _run_rule(ctx, name, fn):
+    """a sub-rule that cannot be evaluated is recorded as undecided; the remaining rules still run"""
+    try:
+        return fn(ctx)
+    except (Undecided, AnchorMissing) as e:
+        ctx.undecided(name, None, None, f"{name}:analysis", f"{type(e).__name__}: {e}")
+        return 0
+
+
 def check(ctx: Ctx):
+    try:
+        check_padded_starts(ctx)
+    except (Undecided, AnchorMissing) as e:
+        ctx.undecided("R10.5", None, None, "R10.5:check_padded_starts", f"{type(e).__name__}: {e}")
     for fn, rule in ((check_crop_data, "R10.1"), (check_bbox, "R10.2"), (check_crop_mask, "R10.3"), (check_pair_constructor, "R10.4")):
         try:
             fn(ctx)
         except (Undecided, AnchorMissing) as e:
             ctx.undecided(rule, None, None, f"{rule}:{fn.__name__}", f"{type(e).__name__}: {e}")
-    c02.check_single_instance(ctx)  # per-instance crop: one crop from both masks (R02.5)
+    _run_rule(ctx, "check_single_instance", c02.check_single_instance)  # per-instance crop: one crop from both masks (R02.5)
     # R10.4 delegated geometry-sensitive configuration
-    c07.check_no_wraparound(ctx)
+    _run_rule(ctx, "check_no_wraparound", c07.check_no_wraparound)
     try:
         c07.check_chain(ctx)
     except (Undecided, AnchorMissing) as e:
         ctx.undecided("R07.2", None, None, "R07.2:check_chain", f"{type(e).__name__}: {e}")
-    c03.check_no_pruning(ctx)
+    _run_rule(ctx, "check_no_pruning", c03.check_no_pruning)
     c03._guarded(ctx, "R03.2", c03.check_candidates)
     # the backend (and with it the connectivity) must depend on the dimensionality only, so that
     # embedding/padding cannot change which library labels the components
